@@ -1,11 +1,13 @@
 #!/bin/bash
 # usage: thorough.sh <checks...> -- run thorough tiers sequentially, print timing and last line
 cd "$(dirname "${BASH_SOURCE[0]}")/.."
+rc_all=0
 for c in "$@"; do
   s=$(date +%s)
   ./check $c -tier thorough > /tmp/thorough.$c.log 2>&1; rc=$?
-  e=$(date +%s)
+  e=$(date +%s); [ $rc -ne 0 ] && rc_all=1
   echo "rc=$rc t=$((e-s))s $(tail -1 /tmp/thorough.$c.log | cut -c1-160)"
   grep -A1 "^VIOLATION" /tmp/thorough.$c.log | grep -v "^--" | head -6 | cut -c1-300
   mkdir -p /tmp/thorough-replays; cp replays/$c-thorough-*.json /tmp/thorough-replays/ 2>/dev/null
 done
+exit $rc_all
